@@ -363,6 +363,18 @@ class Check:
 
     # -- finishing -------------------------------------------------------------------------
     def finish(self, checker_cmd=None, explanation=""):
+        # the verifier's own numpy / builtin models against numpy on concrete values (nssvc.selftest): part of every run's vacuity guards
+        try:
+            from nssvc import selftest
+
+            st = selftest.run()
+            self.vacuity["model_selftest"] = {"modelled functions": st["functions"], "concrete calls": st["calls"], "answered by a model": st["answered"], "mismatches": st["mismatches"][:5]}
+            if st["mismatches"]:
+                self.vacuity["failed"].append("numpy model disagrees with numpy: %s" % st["mismatches"][0])
+            elif st["answered"] < 500:
+                self.vacuity["failed"].append("model self-test answered only %d calls" % st["answered"])
+        except Exception as ex:  # the self-test must not take a check down with it; it is reported as not run
+            self.vacuity["model_selftest"] = {"not run": "%s: %s" % (type(ex).__name__, str(ex)[:120])}
         n = len(self.obs)
         nd = sum(1 for o in self.obs if o.status == "discharged")
         lines = []
